@@ -1,7 +1,7 @@
 //! Contains hex writer of AVRA-rs
 
 use crate::builder::BuildResult;
-use failure::Error;
+use failure::{bail, Error};
 use ihex::Record;
 use std::{fs::File, io::Write, path::PathBuf};
 
@@ -13,11 +13,20 @@ pub struct GenerateResult {
 fn generate_hex_from_segment(segment: &[u8]) -> Result<String, Error> {
     let mut records = vec![];
     if segment.len() > 0 {
-        records.push(Record::ExtendedSegmentAddress(0x0));
-
         for (i, chunk) in segment.chunks(16).enumerate() {
+            // Record offsets are 16 bit wide: every 64 KiB bank starts with its own extended address record
+            if i % 4096 == 0 {
+                let bank = i / 4096;
+                if bank == 0 {
+                    records.push(Record::ExtendedSegmentAddress(0x0));
+                } else if bank <= 0xffff {
+                    records.push(Record::ExtendedLinearAddress(bank as u16));
+                } else {
+                    bail!("image does not fit into the Intel HEX address space");
+                }
+            }
             records.push(Record::Data {
-                offset: i as u16 * 16,
+                offset: (i % 4096) as u16 * 16,
                 value: chunk.to_vec(),
             });
         }
